@@ -412,6 +412,11 @@ func (c *Client) lockIdFromPath(path string) (string, error) {
 	case 0:
 		return "", ErrNoMatchingLocks
 	case 1:
+		if len(list.Locks[0].Id) == 0 {
+			// There is no `locks/:id/unlock` endpoint to address
+			// without an id.
+			return "", errors.New(tr.Tr.Get("lock of %q has no id", path))
+		}
 		return list.Locks[0].Id, nil
 	default:
 		return "", ErrLockAmbiguous
